@@ -51,6 +51,9 @@ fn atoms() -> Vec<Op> {
         ins(V_Y, TS_B),
         ins(V_Z, FUT),
         Op::Insert { k: 0, v: V_Y, ts: 0, ttl: 0, bytes: true },
+        // the zero-copy variant with the SAME explicit timestamp as the plain insert above: of two racing
+        // writes with equal timestamps exactly one may be accepted
+        Op::Insert { k: 0, v: V_Z, ts: TS_B, ttl: 0, bytes: true },
         Op::Delete { k: 0, ts: 0 },
         Op::Delete { k: 0, ts: TS_C },
         Op::Cas { k: 0, expect: V_X, new: V_Y, ts: 0, ttl: 0 },
